@@ -4,7 +4,7 @@
    - segwit helpers: returns exactly what the source of bech32.encode returns for hrp bc/tb, hence (with C11Src) a
      string that decodes back to (witver, program) for every legal pair. *)
 From BHW Require Import Lib.Base Lib.ListAux Model.Helper Model.Bech32M Spec.Bech32 Proofs.Base58 Proofs.Bech32RT
-  Py.Interp Py.Tactics Proofs.PyHelper Proofs.PyBech32 Proofs.PyConvertbits Proofs.PyAddress.
+  Py.Interp Py.Tactics Proofs.PyHelper Proofs.PyBech32 Proofs.PyConvertbits Proofs.PyAddress Model.Ripemd Proofs.PyRipemd.
 From BHWGen Require Import Consts PyAst.
 Open Scope string_scope.
 Open Scope Z_scope.
@@ -53,12 +53,29 @@ Proof.
   - rewrite decode_sem, D. reflexivity.
 Qed.
 
+(* the pure-Python RIPEMD-160 fallback (ripemd.py), used for HASH160 when OpenSSL lacks ripemd160: the MiniPy
+   semantics of the regenerated source of `compress` is the model's compression function on every state and block
+   (all 80 rounds, both lines), and the semantics of `ripemd160` is the model's digest for EVERY message: same value
+   where the model returns one, a genuine Python exception (the OverflowError of (8 len).to_bytes(8)) where it does
+   not.  Props/C05.v's padding theorem is about that model. *)
+Theorem C05_source_ripemd_compress : forall ext fuel h0 h1 h2 h3 h4 block,
+  sem_ripemd__compress ext fuel [VInt h0; VInt h1; VInt h2; VInt h3; VInt h4; VBytes block]
+  = Val (let '(a, b, c, d, e) := compress (h0, h1, h2, h3, h4) block in VTuple [VInt a; VInt b; VInt c; VInt d; VInt e]).
+Proof. exact compress_sem. Qed.
+
+Theorem C05_source_ripemd160 : forall ext fuel data,
+  agrees (sem_ripemd__ripemd160 ext fuel [VBytes data]) (rmap VBytes (ripemd160 data)).
+Proof. exact ripemd160_sem. Qed.
+
 Theorem C05_source_translated :
   forallb (fun q => existsb (String.eqb q) translated)
-    ["helper.h160_to_p2pkh_address"; "helper.h160_to_p2sh_address"; "helper.h160_to_p2wpkh_address"; "helper.h256_to_p2wsh_address"] = true.
+    ["helper.h160_to_p2pkh_address"; "helper.h160_to_p2sh_address"; "helper.h160_to_p2wpkh_address"; "helper.h256_to_p2wsh_address";
+     "ripemd.fi"; "ripemd.rol"; "ripemd.compress"; "ripemd.ripemd160"] = true.
 Proof. reflexivity. Qed.
 
 Print Assumptions C05_source_p2pkh.
 Print Assumptions C05_source_p2sh.
 Print Assumptions C05_source_segwit.
+Print Assumptions C05_source_ripemd_compress.
+Print Assumptions C05_source_ripemd160.
 Print Assumptions C05_source_translated.
